@@ -40,6 +40,151 @@ var _ = reserr.ErrAccessDenied
 //@   loop 1 invariant forall lo, hi int :: e < lo && predEntry(s, lo, hi) ==> s[lo:hi] != action
 //@   loop 1 decreases i
 
+// --- resource patterns (C12) -------------------------------------------------
+
+//@ define predTokStart(s string, k int) bool = k == 0 || s[k-1] == '.'
+
+//@ define predPatChar(b byte) bool = 33 <= b && b <= 126 && b != '?'
+
+// predValidPattern(p): non-empty tokens of printable characters without '?'; '*' only as a
+// whole token, '>' only as the whole last token.
+//@ define predValidPattern(p string) bool = len(p) > 0 && p[0] != '.' && p[len(p)-1] != '.' &&
+//@     (forall k int :: 0 <= k && k < len(p) ==> predPatChar(p[k])) &&
+//@     (forall k int :: 0 <= k && k+1 < len(p) ==> !(p[k] == '.' && p[k+1] == '.')) &&
+//@     (forall k int :: 0 <= k && k < len(p) && p[k] == '*' ==> predTokStart(p, k) && (k+1 < len(p) ==> p[k+1] == '.')) &&
+//@     (forall k int :: 0 <= k && k < len(p) && p[k] == '>' ==> predTokStart(p, k) && k == len(p)-1)
+
+//@ define predHasWild(p string) bool = exists k int :: 0 <= k && k < len(p) && (p[k] == '*' || p[k] == '>')
+
+// predNoEmptyTok(s): s is a dot-separated list of non-empty tokens.
+//@ define predNoEmptyTok(s string) bool = len(s) > 0 && s[0] != '.' && s[len(s)-1] != '.' &&
+//@     (forall k int :: 0 <= k && k+1 < len(s) ==> !(s[k] == '.' && s[k+1] == '.'))
+
+// predPatternInv: the representation invariant of ResourcePattern.
+//@ define predPatternInv(pat string, wild bool) bool = pat == "" || (predValidPattern(pat) && wild == predHasWild(pat))
+
+// Lemmas about the recursive specification functions, proved by induction on the measure.
+//@ lemma lemTokEndBounds(s string, i int)
+//@   requires 0 <= i && i <= len(s)
+//@   ensures[C12] i <= specTokEnd(s, i) && specTokEnd(s, i) <= len(s)
+//@   decreases len(s) - i
+//@   trigger specTokEnd(s, i)
+
+// A valid pattern never matches a shorter name.
+//@ lemma lemMatchLen(p string, s string, pi int, si int)
+//@   requires predValidPattern(p) && 0 <= pi && pi <= len(p) && 0 <= si && si <= len(s) && specMatchFrom(p, s, pi, si)
+//@   ensures[C12] len(s) - si >= len(p) - pi
+//@   decreases len(p) - pi
+//@   trigger specMatchFrom(p, s, pi, si)
+
+//@ func ParseResourcePattern
+//@   ensures[C12] predValidPattern(p) ==> result.pattern == p && result.hasWild == predHasWild(p)
+//@   ensures[C12] !predValidPattern(p) ==> result.pattern == ""
+//@   assigns nothing
+//@   safety[C15]
+//@   loop 1 invariant forall k int :: 0 <= k && k < rangeidx1 ==> predPatChar(p[k])
+//@   loop 1 invariant forall k int :: 0 <= k && k < rangeidx1 && p[k] == '.' ==> k > 0 && p[k-1] != '.'
+//@   loop 1 invariant forall k int :: 0 <= k && k < rangeidx1 && p[k] == '*' ==> predTokStart(p, k) && (k+1 < rangeidx1 ==> p[k+1] == '.')
+//@   loop 1 invariant forall k int :: 0 <= k && k < rangeidx1 && p[k] == '>' ==> predTokStart(p, k) && k == l-1
+//@   loop 1 invariant start == (rangeidx1 == 0 || p[rangeidx1-1] == '.')
+//@   loop 1 invariant alone == (rangeidx1 > 0 && p[rangeidx1-1] == '*')
+//@   loop 1 invariant hasWild == (exists k int :: 0 <= k && k < rangeidx1 && (p[k] == '*' || p[k] == '>'))
+
+//@ func ResourcePattern.IsValid
+//@   ensures[C12] result == (p.pattern != "")
+//@   assigns nothing
+
+// Match: wildcard-free patterns match exactly themselves; patterns with wildcards match by
+// NATS semantics (specMatchFrom: '*' is exactly one token, '>' is one or more trailing tokens).
+//@ func ResourcePattern.Match
+//@   requires predPatternInv(p.pattern, p.hasWild)
+//@   ensures[C12] p.pattern == "" ==> !result
+//@   ensures[C12] p.pattern != "" && !p.hasWild ==> result == (s == p.pattern)
+//@   ensures[C12] p.pattern != "" && p.hasWild && predNoEmptyTok(s) ==> result == specMatchFrom(p.pattern, s, 0, 0)
+//@   assigns nothing
+//@   safety[C15]
+//@   loop 1 invariant 0 <= pi && pi < plen && 0 <= si && si < slen
+//@   loop 1 invariant predNoEmptyTok(s) ==> predTokStart(p.pattern, pi) == predTokStart(s, si)
+//@   loop 1 invariant predNoEmptyTok(s) ==> specMatchFrom(p.pattern, s, 0, 0) == specMatchFrom(p.pattern, s, pi, si)
+//@   loop 1 decreases slen - si
+//@   loop 2 let si0 = si
+//@   loop 2 invariant si0 <= si && si < slen && 0 < pi && pi <= plen
+//@   loop 2 invariant forall k int :: si0 <= k && k < si ==> s[k] != '.'
+//@   loop 2 invariant specTokEnd(s, si0) == specTokEnd(s, si)
+//@   loop 2 decreases slen - si
+
+// specTokEnd(s, i): the index of the first '.' at or after i, or len(s).
+func specTokEnd(s string, i int) int {
+	if i >= len(s) || s[i] == '.' {
+		return i
+	}
+	return specTokEnd(s, i+1)
+}
+
+// specMatchFrom(p, s, pi, si): p[pi:] matches s[si:] where '>' matches any non-empty rest,
+// '*' matches one non-empty token, and every other byte (including '.') matches itself.
+func specMatchFrom(p, s string, pi, si int) bool {
+	if pi >= len(p) {
+		return si >= len(s)
+	}
+	if p[pi] == '>' {
+		return si < len(s)
+	}
+	if p[pi] == '*' {
+		return specTokEnd(s, si) > si && specMatchFrom(p, s, pi+1, specTokEnd(s, si))
+	}
+	return si < len(s) && s[si] == p[pi] && specMatchFrom(p, s, pi+1, si+1)
+}
+
+// SpecMatch is the executable oracle for ResourcePattern.Match on valid patterns.
+func SpecMatch(pattern string, hasWild bool, s string) bool {
+	if pattern == "" {
+		return false
+	}
+	if !hasWild {
+		return s == pattern
+	}
+	return specMatchFrom(pattern, s, 0, 0)
+}
+
+// --- throttle (C19) ------------------------------------------------------------
+
+// predThrottleInv: at most limit callbacks are running, and callbacks wait only while the
+// throttle is saturated.
+//@ define predThrottleInv(t *Throttle) bool = t.limit > 0 && 0 <= t.running && t.running <= t.limit &&
+//@     (len(t.queue) > 0 ==> t.running == t.limit)
+
+//@ func NewThrottle
+//@   requires limit > 0
+//@   ensures[C19] result != nil && fresh(result) && predThrottleInv(result)
+//@   ensures[C19] result.limit == limit && result.running == 0 && len(result.queue) == 0
+//@   assigns nothing
+
+// Add: with a free slot the callback is started now and takes the slot; otherwise it is
+// appended at the tail of the queue and not started.
+//@ func (*Throttle).Add
+//@   requires t != nil && predThrottleInv(t)
+//@   ensures[C19] predThrottleInv(t) && t.limit == old(t.limit)
+//@   ensures[C19] old(t.running) < old(t.limit) ==> resolved(cb) == 1 && t.running == old(t.running) + 1 && t.queue == old(t.queue)
+//@   ensures[C19] old(t.running) >= old(t.limit) ==> resolved(cb) == 0 && t.running == old(t.running) &&
+//@       len(t.queue) == old(len(t.queue)) + 1 && t.queue[len(t.queue)-1] == cb &&
+//@       (forall k int :: 0 <= k && k < old(len(t.queue)) ==> t.queue[k] == old(t.queue[k]))
+//@   assigns t.running, t.queue, elems(t.queue)
+//@   safety[C15]
+
+// Done: releases a slot; if a callback waits, the head of the queue is started instead and the
+// slot stays taken (FIFO). A nil throttle does nothing. The explicit panic is unreachable.
+//@ func (*Throttle).Done
+//@   requires t != nil ==> predThrottleInv(t) && t.running > 0
+//@   ensures[C19] t != nil ==> predThrottleInv(t) && t.limit == old(t.limit)
+//@   ensures[C19] t != nil && old(len(t.queue)) == 0 ==> t.running == old(t.running) - 1 && spawncount() == old(spawncount())
+//@   ensures[C19] t != nil && old(len(t.queue)) > 0 ==> t.running == old(t.running) && spawncount() == old(spawncount()) + 1 &&
+//@       spawned() == old(t.queue[0]) && len(t.queue) == old(len(t.queue)) - 1 &&
+//@       (forall k int :: 0 <= k && k < len(t.queue) ==> t.queue[k] == old(t.queue[k+1]))
+//@   ensures[C19] t == nil ==> spawncount() == old(spawncount())
+//@   assigns t.running, t.queue
+//@   safety[C15]
+
 // SpecListHas is the executable form of predListHas: a is exactly one of the
 // comma-separated entries of s; the empty list has no entries.
 func SpecListHas(s, a string) bool {
